@@ -531,3 +531,22 @@ impl<Ctx: OptCtx> LoweredToLir<'_, Ctx> {
         crate::verif_hooks::c12::dump_lir(&self.ir)
     }
 }
+
+#[cfg(feature = "verif-hooks")]
+impl<Ctx: OptCtx> LoweredToMir<'_, Ctx> {
+    /// Verification hook (C03): structured dump of every MIR item with the
+    /// type trees and the LIR lowerer's own `needs_drop` bit of every type.
+    pub fn verif_c03_dump(&mut self) -> Vec<crate::verif_hooks::c03::ItemDump> {
+        let mut runtime_functions = HashMap::new();
+        let mut ctx = lir::lower::LowerCtx {
+            runtime: &self.runtime.rt,
+            type_info: &mut self.type_info,
+            label_store: &mut self.label_store,
+            runtime_functions: &mut runtime_functions,
+            drops_to_generate: VecDeque::new(),
+            clones_to_generate: VecDeque::new(),
+            eq_to_generate: VecDeque::new(),
+        };
+        crate::verif_hooks::c03::dump_items(&self.ir, &mut ctx)
+    }
+}
